@@ -314,15 +314,18 @@ func (dsc *Discipline[Type]) waitZeroActual() {
 	}
 }
 
-func (dsc *Discipline[Type]) getOneFeedback() {
+// Returns false if waiting was interrupted by stopping or canceling the discipline.
+func (dsc *Discipline[Type]) getOneFeedback() bool {
 	select {
 	case <-dsc.breaker.IsBreaked():
-		return
+		return false
 	case <-dsc.opts.Ctx.Done():
-		return
+		return false
 	case priority := <-dsc.opts.Feedback:
 		dsc.decreaseActual(priority)
 	}
+
+	return true
 }
 
 func (dsc *Discipline[Type]) getLimitedFeedback() {
@@ -376,13 +379,18 @@ func (dsc *Discipline[Type]) isInputExists(priority uint) bool {
 func (dsc *Discipline[Type]) base() (uint, error) {
 	processed := uint(0)
 
-	if err := dsc.waitCalcTactic(); err != nil {
+	proceed, err := dsc.waitCalcTactic()
+	if err != nil {
 		return processed, err
+	}
+
+	if !proceed {
+		return processed, nil
 	}
 
 	processed += dsc.prioritize()
 
-	proceed, err := dsc.recalcTactic()
+	proceed, err = dsc.recalcTactic()
 	if err != nil {
 		return processed, err
 	}
@@ -396,18 +404,22 @@ func (dsc *Discipline[Type]) base() (uint, error) {
 	return processed, nil
 }
 
-func (dsc *Discipline[Type]) waitCalcTactic() error {
+// Returns false if the tactic was not calculated because the discipline is stopped
+// or canceled, otherwise with all handlers busy this loop would never end.
+func (dsc *Discipline[Type]) waitCalcTactic() (bool, error) {
 	for {
 		proceed, err := dsc.calcTactic()
 		if err != nil {
-			return err
+			return false, err
 		}
 
 		if proceed {
-			return nil
+			return true, nil
 		}
 
-		dsc.getOneFeedback()
+		if !dsc.getOneFeedback() {
+			return false, nil
+		}
 	}
 }
 
